@@ -16,6 +16,8 @@ os.environ["PYTHONPATH"] = REPO + os.pathsep + HERE + os.pathsep + os.environ.ge
 os.environ.setdefault("PYTHONHASHSEED", "0")
 os.environ.setdefault("TYPHON_VERIF", "1")
 
+import logging
+logging.disable(logging.CRITICAL)          # typhon reports progress through logger.error
 from vlib.ctx import Ctx  # noqa: E402
 from vlib.tlc import MachineryError  # noqa: E402
 
